@@ -147,6 +147,7 @@ FORCED = [
     Abstract("recovery-readme", "S", [("S", []), ("S", ["S","A","a"]), ("S", ["S",ERR,"a"]), ("A", ["A","b","A"]), ("A", ["c"])], {"b": (1, 1)}),
     Abstract("recovery-nested", "S", [("S", []), ("S", ["S","A","a"]), ("S", ["S",ERR,"a"]), ("A", ["A","b","A"]), ("A", ["d","A","e"]), ("A", ["d",ERR,"e"]), ("A", ["c"])], {"b": (1, 1)}),
     Abstract("recovery-first", "S", [("S", [ERR,"a"]), ("S", ["b","S"]), ("S", ["c"])]),
+    Abstract("recovery-reduce-on-error-after-pop", "S", [("S", []), ("S", ["S","A"]), ("A", ["B"]), ("A", [ERR,"a"]), ("B", ["b"]), ("B", ["b","c","b","d"])]),
     Abstract("recovery-lone-error", "S", [("S", ["A","a"]), ("A", [ERR]), ("A", ["b"])]),
 ]
 
